@@ -123,6 +123,7 @@ type config struct {
 	FnName      bool              `json:"function_name_set"`
 	FnVer       bool              `json:"function_version_set"`
 	TokenMode   bool              `json:"credentials_by_token"`
+	EmptyCreds  bool              `json:"credentials_empty"` // key mode with empty key / secret / session (no credentials in the emulator's environment)
 	Addr        string            `json:"runtime_api_address"`
 	Inherited   map[string]string `json:"inherited_process_env"`
 }
@@ -179,6 +180,9 @@ func specLayers(c config) layers {
 		l.credentials["AWS_ACCESS_KEY_ID"] = awsKey
 		l.credentials["AWS_SECRET_ACCESS_KEY"] = awsSecret
 		l.credentials["AWS_SESSION_TOKEN"] = awsSession
+		if c.EmptyCreds {
+			l.credentials["AWS_ACCESS_KEY_ID"], l.credentials["AWS_SECRET_ACCESS_KEY"], l.credentials["AWS_SESSION_TOKEN"] = "", "", ""
+		}
 	}
 	switch c.HandlerMode {
 	case 1:
@@ -260,6 +264,8 @@ func runImpl(in input) (rt, ag map[string]string) {
 	}
 	if c.TokenMode {
 		e.StoreEnvironmentVariablesFromInitForInitCaching(credHost, credPort, cust, h, n, v, credToken)
+	} else if c.EmptyCreds {
+		e.StoreEnvironmentVariablesFromInit(cust, h, "", "", "", n, v)
 	} else {
 		e.StoreEnvironmentVariablesFromInit(cust, h, awsKey, awsSecret, awsSession, n, v)
 	}
@@ -463,14 +469,20 @@ func scenarios(tier string) []hx.Scenario {
 	handlerNames := []string{"unset", "init", "override", "both"}
 	for hm := 0; hm < 4; hm++ {
 		for fn := 0; fn < 4; fn++ {
-			for tok := 0; tok < 2; tok++ {
+			for tok := 0; tok < 3; tok++ {
 				hm, fn, tok := hm, fn, tok
+				if tok == 2 && (hm != 0 || fn != 3) {
+					continue // empty credentials: one configuration
+				}
 				name := fmt.Sprintf("direct/handler=%s/fn-name=%v/fn-version=%v/cred-token=%v", handlerNames[hm], fn&1 != 0, fn&2 != 0, tok == 1)
+				if tok == 2 {
+					name += "/cred-empty=true"
+				}
 				scen = append(scen, hx.Scenario{Name: name, Run: func(c *hx.Ctx) *hx.ScenarioResult {
 					if c.Replay != nil {
 						return replay(c, name)
 					}
-					return enumerate(c, name, tier, config{HandlerMode: hm, FnName: fn&1 != 0, FnVer: fn&2 != 0, TokenMode: tok == 1})
+					return enumerate(c, name, tier, config{HandlerMode: hm, FnName: fn&1 != 0, FnVer: fn&2 != 0, TokenMode: tok == 1, EmptyCreds: tok == 2})
 				}})
 			}
 		}
